@@ -27,13 +27,24 @@ func (is Instructions) Pass(pass int) bool {
 	for i, instr := range is {
 		posChanged := instr.SetPos(i, addr)
 		changed = changed || posChanged
-		if pass > 0 {
-			// Only resolve addresses on 2nd pass
+		addr += instr.Size()
+	}
+	if pass > 0 {
+		// Only resolve addresses on 2nd pass and only once all
+		// the positions are consistent with each other
+		for _, instr := range is {
 			if resolver, ok := instr.(Resolver); ok {
+				size := instr.Size()
 				resolver.Resolve()
+				// If the instruction grew (it now needs an
+				// EXTENDED_ARG) then the positions need
+				// recalculating. Sizes only ever grow so
+				// this converges.
+				if instr.Size() != size {
+					changed = true
+				}
 			}
 		}
-		addr += instr.Size()
 	}
 	return changed
 }
@@ -446,13 +457,8 @@ func (o *JumpRel) Resolve() {
 	if o.Dest.Pos() < currentPos {
 		panic("JUMP_FORWARD can't jump backwards")
 	}
+	// NB this may make the instruction grow - see Pass
 	o.OpArg.Arg = o.Dest.Pos() - currentPos
-	if o.Size() != currentSize {
-		// FIXME There is an awkward moment where jump forwards is
-		// between 0x1000 and 0x1002 where the Arg oscillates
-		// between 2 and 4 bytes
-		panic("FIXME compile: JUMP_FOWARDS size changed")
-	}
 }
 
 // Creates the lnotab from the instruction stream
